@@ -13,6 +13,12 @@ CLAIMS = {
                 text="Held on N random accumulator histories: every return value and every scope-exit panic compared with a sequential model; drop-during-unwind histories run in a child process whose abnormal exit is the violation.",
                 note="Trusts catch_unwind and process exit status as observations.",
                 technique="runtime monitoring: history checking against a sequential model, child-process abort detection"),
+    "C11": dict(engine="direct",
+                text="Held on the exhaustive sub-space (24 integer targets x [-70000,70000] x quoted/unquoted) plus N random literals (radix 2/8/10/16, underscores, suffixes, 1..60 digits, type boundaries +-2, floats, bool/char/string forms) converted by all 30 scalar targets; reference is str::parse::<T> of the denoted value known to the generator; errors must be spanned inside the item.",
+                note="Trusts Rust's str::parse as the standard parsing the property names and syn's lexer for delivering the literal; items are classified by the syn::Expr variant darling is handed."),
+    "C14": dict(engine="direct",
+                text="Held on N random item lists converted by all 25 map instantiations; success, entries, leaf count and per-item leaf attribution compared with a model (re-implemented key conversion, differential value acceptance); Hash/BTree agreement per input.",
+                note="Value acceptance is taken from V::from_meta on the same item (C11/C13 decide those conversions)."),
 }
 
 PENDING = {}
